@@ -4,11 +4,12 @@ F140  (invariants)  `utils/solvers.py:solve_rec_by_summing` strips every `Piecew
       (`without_piecewise`), and with it the initial-value cases of the solved effective monomials: when an
       effective variable is read before it is (re)assigned in the first iteration — its closed form is
       `Piecewise((x0, n = 0), (general, True))` — the returned f ignores x0 and is wrong from n = 1 on.
-      Cure used for attribution: the same synthesis call is repeated in a worker and the very summation the code
-      is given, f(n) = k^n·q0 + Σ_{j<n} k^j·inhom(n−j), is evaluated *pointwise* with the Piecewise intact
-      (harness/tasks/c14.py:repair_piecewise).  The failure is attributed only if (a) the solved effective part
-      contains a Piecewise in n, (b) the re-run reproduces a wrong closed form and (c) the pointwise values equal
-      the exact expectations E(Q(state_n)) of the Lean reference semantics for every compared n.
+      Cure used for attribution: the same synthesis call is repeated in a worker and exactly what the stripping
+      removed, Σ_{j<n} k^j·(inhom(n−j) − general_branch(n−j)), is added back to the values of the closed form the
+      tree returns (harness/tasks/c14.py:repair_piecewise; nothing else is recomputed, so e.g. a wrong summation
+      bound is *not* cured).  The failure is attributed only if (a) the solved effective part contains a Piecewise
+      in n, (b) the re-run reproduces a wrong closed form and (c) the repaired values equal the exact expectations
+      E(Q(state_n)) of the Lean reference semantics for every compared n.
 
 F141  (synthesised loops)  `SolvLoopSynthesizer` replaces every effective variable by a *deterministic* variable
       that carries its mean (`t = E-recurrence of var`), but keeps non-linear monomials of effective variables in the
